@@ -29,10 +29,10 @@ func (c *Client) verifIntercept(method string, args ...any) (bool, any, error) {
 	return f.(VerifInterceptor)(method, args...)
 }
 
-// VerifNewClient returns a [Client] without any RPC connection: every chain
+// VerifNewInterceptedClient returns a [Client] without any RPC connection: every chain
 // call that is not handled by the interceptor fails with [ErrConnectionLost].
 // Notary support is switched on with the given contract hashes and alphabet source.
-func VerifNewClient(key *keys.PrivateKey, f VerifInterceptor, notaryHash, proxy util.Uint160, alphabet AlphabetKeys) *Client {
+func VerifNewInterceptedClient(key *keys.PrivateKey, f VerifInterceptor, notaryHash, proxy util.Uint160, alphabet AlphabetKeys) *Client {
 	cfg := defaultConfig()
 	cfg.logger = zap.NewNop()
 	c := &Client{
